@@ -664,7 +664,7 @@ func (m *Machine) makeSlice(elem types.Type, ln, cp *Term) Value {
 	// allocation budget obligation (harness-configurable)
 	if m.allocLimit > 0 {
 		big := m.ctx.Lt(m.ctx.IntI(SI64, m.allocLimit/esz), cp)
-		m.mayPanic(big, fmt.Sprintf("allocation exceeds budget (%d bytes)", m.allocLimit))
+		m.mayPanic(big, "allocation exceeds budget")
 	}
 	c := m.concretize(cp, 0, maxAllocElems)
 	n := m.concretize(ln, 0, c)
@@ -1306,7 +1306,9 @@ func (m *Machine) mergeCall(fn *ssa.Function, args []Value) (result Value, ok bo
 	type outcome struct {
 		guard *Term
 		val   Value
+		ivs   []IV // intervals of the int components of val under the run's guard
 	}
+	scope := m.ctx.saveScope()
 	var outs []outcome
 	var panics []guardedPanic
 	dec := []int{}
@@ -1332,11 +1334,14 @@ func (m *Machine) mergeCall(fn *ssa.Function, args []Value) (result Value, ok bo
 		}()
 		m.merge = nil
 		if aborted {
+			m.ctx.restoreScope(scope)
 			return nil, false
 		}
 		if !mc.guard.IsFalse() {
-			outs = append(outs, outcome{mc.guard, val})
+			outs = append(outs, outcome{mc.guard, val, m.valueIVs(val)})
 		}
+		m.ctx.restoreScope(scope)
+		scope = m.ctx.saveScope()
 		panics = append(panics, mc.panics...)
 		// next decision vector: increment last 0 to 1, dropping trailing 1s
 		dec = mc.dec
@@ -1356,6 +1361,35 @@ func (m *Machine) mergeCall(fn *ssa.Function, args []Value) (result Value, ok bo
 				merged, okm = m.mergeValues(outs[j].guard, outs[j].val, merged)
 				if !okm {
 					return nil, false
+				}
+			}
+			// permanent facts: each int component lies in the union of its per-outcome intervals
+			comps := m.valueTerms(merged)
+			for k, t := range comps {
+				if t == nil || t.IsConst() {
+					continue
+				}
+				var u IV
+				okU := true
+				for j, o := range outs {
+					if k >= len(o.ivs) || o.ivs[k].Lo == nil {
+						okU = false
+						break
+					}
+					if j == 0 {
+						u = o.ivs[k]
+					} else {
+						u = u.join(o.ivs[k])
+					}
+				}
+				if okU {
+					if f, ok := m.ctx.facts[t]; ok {
+						u = u.meet(f)
+					}
+					if !u.empty() {
+						m.ctx.facts[t] = u
+						m.ctx.ivChanged()
+					}
 				}
 			}
 			for _, p := range panics {
@@ -1438,4 +1472,40 @@ func (m *Machine) mergeValues(g *Term, a, b Value) (Value, bool) {
 		return StringV{b: out}, true
 	}
 	return nil, false
+}
+
+// valueTerms flattens the scalar int terms of a (possibly tuple/struct) value, in a fixed order;
+// non-int components are nil placeholders.
+func (m *Machine) valueTerms(v Value) []*Term {
+	switch x := v.(type) {
+	case *Term:
+		if x.Sort.K == KInt {
+			return []*Term{x}
+		}
+		return []*Term{nil}
+	case TupleV:
+		var out []*Term
+		for _, e := range x {
+			out = append(out, m.valueTerms(e)...)
+		}
+		return out
+	case *StructV:
+		var out []*Term
+		for _, e := range x.f {
+			out = append(out, m.valueTerms(e)...)
+		}
+		return out
+	}
+	return []*Term{nil}
+}
+
+func (m *Machine) valueIVs(v Value) []IV {
+	ts := m.valueTerms(v)
+	out := make([]IV, len(ts))
+	for i, t := range ts {
+		if t != nil {
+			out[i] = m.ctx.IV(t)
+		}
+	}
+	return out
 }
